@@ -281,7 +281,45 @@ class Scn:
         self.s.append(dict({"ev": "Fetch", "c": self.c, "op": op, "vals": vals, "dir": d, "gets": gets}, **kw))
 
 
+G = 1000000000
+EDGE = [0, 1, G - 1, G, G + 1, 8 * G, 16 * G, 31 * G, 32 * G - 1, 32 * G, 32 * G + 1, 33 * G, 64 * G, 2048 * G - 1, 2048 * G, 2048 * G + 1, 4096 * G]
+
+
+def fn_step(r, sc):
+    """a call of one of the functions of eth2util/deposit with arguments around their edges"""
+    f = r.choice(["newmsg", "newmsg", "verify", "verify", "dedup", "max"])
+    comp = r.random() < 0.5
+    if f == "newmsg":
+        return {"ev": "Fn", "f": f, "v": r.randint(1, sc.nv), "addr": r.choice(["A", "A", "B", "B", "short", "no0x", "nothex", "creds32", "empty"]),
+                "gwei": r.choice(EDGE), "comp": comp}
+    if f == "verify":
+        k = r.choice([0, 1, 1, 2, 2, 3, 4])
+        amts = [r.choice(EDGE) for _ in range(k)]
+        if r.random() < 0.5 and k:
+            # partial amounts that add up to 32 ETH, give or take one Gwei
+            amts = [G] * (k - 1)
+            amts.append(32 * G - sum(amts) + r.choice([0, 0, -1, 1, G]))
+            r.shuffle(amts)
+        return {"ev": "Fn", "f": f, "amts": amts, "comp": comp, "nil": k == 0 and r.random() < 0.5}
+    if f == "dedup":
+        return {"ev": "Fn", "f": f, "amts": [r.choice([G, 8 * G, 32 * G, 32 * G, G, 256 * G, 5]) for _ in range(r.randint(0, 6))]}
+    return {"ev": "Fn", "f": "max", "comp": comp}
+
+
 def scenario(r, big):
+    s = scenario0(r, big)
+    sc = Scn(r, s[0]["n"], s[0]["t"], s[0]["nv"], s[0]["comp"])
+    out = []
+    for st in s:
+        out.append(st)
+        if st["ev"] == "Fetch" and r.random() < 0.5:
+            out.append({"ev": "Fn", "f": "readback", "op": st["op"], "dir": st["dir"]})
+        if r.random() < 0.12:
+            out.append(fn_step(r, sc))
+    return out
+
+
+def scenario0(r, big):
     n, t = r.choice(SHAPES)
     flavour = r.choice(["threshold", "threshold", "messages", "messages", "refuse", "multi", "multi", "resign", "byz", "dirs", "tamper", "tamper", "comp"])
     comp = flavour == "comp" or r.random() < 0.2
@@ -659,6 +697,44 @@ def mutators():
         t[k]["v"] = t[k]["v"] % 3 + 1 if t[k]["v"] >= 1 else 1
         return t
 
+    def fn(name):
+        return lambda e: e["ev"] == "Fn" and e["f"] == name
+
+    def newmsg_result(t):
+        k = first(t, fn("newmsg"))
+        if k is None:
+            return None
+        t[k]["ok"] = not t[k]["ok"]
+        return t
+
+    def newmsg_prefix(t):
+        k = first(t, lambda e: fn("newmsg")(e) and e["ok"])
+        if k is None:
+            return None
+        t[k]["creds"] = {1: 2, 2: 1, 3: 4, 4: 3}[t[k]["creds"]]
+        return t
+
+    def verify_result(t):
+        k = first(t, fn("verify"))
+        if k is None:
+            return None
+        t[k]["ok"] = not t[k]["ok"]
+        return t
+
+    def dedup_order(t):
+        k = first(t, lambda e: fn("dedup")(e) and len(e["out"]) >= 2)
+        if k is None:
+            return None
+        t[k]["out"] = t[k]["out"][::-1]
+        return t
+
+    def readback_short(t):
+        k = first(t, lambda e: fn("readback")(e) and e["files"])
+        if k is None:
+            return None
+        t[k]["files"] = t[k]["files"][1:]
+        return t
+
     def lock_touched(t):
         k = first(t, lambda e: e["ev"] == "Done")
         if k is None:
@@ -677,7 +753,9 @@ def mutators():
             ("deposit file written by a failed fetch", file_on_failure), ("deposit accepted below the threshold", below_threshold),
             ("deposit accepted with a partial over another message", mixed_message), ("deposit accepted with a mislabelled public share", wrong_pubshare),
             ("a full-deposit request not observed", get_dropped), ("full-deposit request for another validator", get_other_validator),
-            ("the cluster lock file changed", lock_touched)]
+            ("the cluster lock file changed", lock_touched), ("NewMessage with the opposite result", newmsg_result),
+            ("NewMessage credentials with the other prefix", newmsg_prefix), ("VerifyDepositAmounts with the opposite result", verify_result),
+            ("DedupAmounts descending", dedup_order), ("a written file not read back", readback_short)]
 
 
 # ----------------------------------------------------------------------------------------------------------------------
@@ -779,6 +857,7 @@ def stage(o, tier, seed):
     x["depositflow_deposits_written"] = sum(len(f["entries"]) for e in ev if e["ev"] == "Done" and e["ok"] for f in e["files"])
     x["depositflow_commands_ok"] = sum(1 for e in ev if e["ev"] == "Done" and e["ok"])
     x["depositflow_commands_failed"] = sum(1 for e in ev if e["ev"] == "Done" and not e["ok"])
+    x["depositflow_function_calls"] = sum(1 for e in ev if e["ev"] == "Fn")
     x["depositflow_fetch_ok_with_files"] = sum(1 for e in ev if e["ev"] == "Done" and e["ok"] and e["files"])
     if not o.violations and (x["depositflow_fetch_ok_with_files"] < 10 or x["depositflow_partials_posted"] < 50):
         raise vlib.Infra("vacuous DepositFlow run: %s" % {k: v for k, v in x.items() if k.startswith("depositflow_")})
